@@ -8,6 +8,7 @@
 
    Executable definitions only; no proofs in this file. *)
 From Coq Require Import List ZArith QArith Bool.
+From Bignums Require Import BigQ BigZ BigN.
 From Verif Require Import lib.MxC01 gen.FordGen.
 Import ListNotations.
 Close Scope Q_scope.
@@ -267,3 +268,80 @@ Definition dynid_B (vec : list token) (ps : list (nat * nat)) : list (list Z) :=
 (* columns of the non-identity rows of B that can be non-zero: tokens whose lag is not in the vector *)
 Definition lag_columns (vec : list token) : list bool :=
   map (fun t => negb (mem_tok (fst t, (snd t - 1)%Z) vec)) vec.
+
+(* ==================================================================== *)
+(* Helpers for the generated correspondence case files: the model instantiated on exact numbers *)
+Module Case.
+
+Fixpoint failing_idx (l : list bool) (i : nat) : list nat :=
+  match l with [] => [] | b :: r => if b then failing_idx r (S i) else i :: failing_idx r (S i) end.
+
+(* ---- stage (a): every solution matrix from the recorded oracle outputs, exact rationals.
+   expected order: T P K X Ua Ta Pa Ka Xa J Ru Z H D Za *)
+Module A.
+Import LQ.
+Notation QO := LQ.Ops.
+Definition tol : bigQ := BigQ.Qq (BigZ.of_Z 1) (BigN.of_N 10000000).     (* 1e-7 * (1 + |x|) *)
+
+Definition solution_matrices (nb nf ne ny nw : nat) (S T Q Z C D Ta u F Gm Hc Jm : M) : list M :=
+  let p := @solve_transition QO nb nf ne S T Q Z C D in
+  let t := @detach QO nb nf ne p Ta u in
+  let s := @square_from_triangular QO nb nf ne t in
+  let m := @solve_measurement QO nb nf ny nw F Gm Hc Jm (tr_Ua t) in
+  [sq_T s; sq_P s; sq_K s; sq_X s; tr_Ua t; tr_Ta t; tr_Ra t; tr_Ka t; tr_Xa t; tr_J t; tr_Ru t;
+   ms_Z m; ms_H m; ms_D m; ms_Za m].
+
+Definition check_solution (nb nf ne ny nw : nat) (S T Q Z C D Ta u F Gm Hc Jm : M) (expected : list M) : list nat :=
+  failing_idx (map (fun p => mclose tol (fst p) (snd p))
+                   (combine (solution_matrices nb nf ne ny nw S T Q Z C D Ta u F Gm Hc Jm) expected)) 0.
+End A.
+
+(* ---- stage (b): expansion and a whole flat simulation from the solution matrices the implementation
+   reports; only + and * occur, so dyadic arithmetic is exact *)
+Module B.
+Import LD.
+Notation DO := LD.Ops.
+Definition tol : dyad := (BigZ.one, (-23)%Z).          (* 2^-23 = 1.19e-7, times (1 + |x|) *)
+
+(* the forward expansion as reported by Solution.expand_square_solution(forward) *)
+Definition check_expansion (nb nf ne : nat) (P X J Ru : M) (forward : nat) (expected : list M) : bool :=
+  all2 (mclose tol) (@expansion DO nb nf ne P X J Ru forward) expected.
+
+(* expected: per period the transition vector xi_t (None = do not compare the cell) and y_t *)
+Definition close_opt (m : dyad) (e : option dyad) : bool := match e with Some x => close tol m x | None => true end.
+Definition col_close (m : M) (e : list (option dyad)) : bool :=
+  Nat.eqb (length m) (length e) && forallb (fun p => close_opt (hd d0 (fst p)) (snd p)) (combine m e).
+
+Definition check_simulation (nb nf ne ny nw : nat) (deviation : bool) (true_init : list bool)
+    (T P K X J Ru Z H D : M) (init_xi : M) (us vs ws : list M)
+    (exp_xi exp_y : list (list (option dyad))) : list nat :=
+  let xis := @simulate_flat DO nb nf ne deviation (fun i => nth i true_init false) T P K X J Ru init_xi us vs in
+  let ys := @simulate_measurement DO nb ny nw deviation Z H D xis ws in
+  let bx := Nat.eqb (length xis) (length exp_xi) :: map (fun p => col_close (fst p) (snd p)) (combine xis exp_xi) in
+  let by_ := map (fun p => col_close (fst p) (snd p)) (combine ys exp_y) in
+  failing_idx (bx ++ by_) 0.
+End B.
+
+(* ---- stage (c): tokens, exact *)
+Definition tok_list_eqb (a b : list token) : bool := all2 tok_eqb a b.
+Definition check_tokens (actual meas : list token) (e_vec : list token) (e_true : list bool) (e_nf : nat)
+    (e_sol : list token) (e_sol_true : list bool) (e_dynA e_dynB : list (list Z)) : list nat :=
+  let vec := system_vector actual meas in
+  let ps := dynid_pairs vec in
+  failing_idx [
+    tok_list_eqb vec e_vec;
+    all2 Bool.eqb (true_initials actual vec) e_true;
+    Nat.eqb (num_forwards vec) e_nf;
+    tok_list_eqb (solution_vector vec) e_sol;
+    all2 Bool.eqb (solution_true_initials actual vec) e_sol_true;
+    match ps with Some p => all2 (all2 Z.eqb) (dynid_A vec p) e_dynA | None => false end;
+    match ps with Some p => all2 (all2 Z.eqb) (dynid_B vec p) e_dynB | None => false end ] 0.
+
+(* ---- stage (d): classification; kinds coded 0 = STABLE, 1 = UNIT_ROOT, 2 = UNSTABLE; verdict 0 = STABLE,
+   1 = MULTIPLE_STABLE, 2 = NO_STABLE *)
+Definition ekind_code (k : ekind) : nat := match k with E_STABLE => 0 | E_UNIT_ROOT => 1 | E_UNSTABLE => 2 end.
+Definition skind_code (k : skind) : nat := match k with S_STABLE => 0 | S_MULTIPLE_STABLE => 1 | S_NO_STABLE => 2 end.
+Definition check_stability (tolerance : Q) (moduli : list Q) (nf : nat) (e_kinds : list nat) (e_verdict : nat) : list nat :=
+  let r := stability tolerance moduli nf in
+  failing_idx [ all2 Nat.eqb (map ekind_code (rep_kinds r)) e_kinds; Nat.eqb (skind_code (rep_verdict r)) e_verdict ] 0.
+End Case.
